@@ -395,9 +395,24 @@ def _c26_client(r, c, thorough):
         hs.insert(0, [b"Host", b"example.com", 0])
     if tag == "benign" and body and hasbody and r.random() < 0.1:
         hs.append([b"Content-Length", str(len(body)).encode(), 0])
+    reuse = tag == "benign" and r.random() < 0.06
     c.c("lsn 0")
-    c.c("lprog 0 0:n")
-    c.c("con 0 0")
+    if reuse:
+        # the request under test is the SECOND one on this evhttp_connection: the first, with a body far larger than the
+        # socket takes, goes to a peer that never reads and is cancelled while only partly written; nothing of it may
+        # reach the connection the second request is sent on (seed C26-3)
+        c.c("lprog 0 0:z")
+        c.c("lprog 0 0:n")
+        c.c("con 0 0")
+        c.c("rq 1 errcb")
+        c.c("rqbz 1 8388608")
+        c.c("mk 1 0 0x2 %s" % hx(b"/first"))
+        c.c("step")
+        c.c("cancel 1")
+        c.c("step")
+    else:
+        c.c("lprog 0 0:n")
+        c.c("con 0 0")
     c.c("rq 0 errcb")
     for n_, v_, _a in hs:
         c.c("rqh 0", hx(n_), hx(v_))
@@ -405,7 +420,7 @@ def _c26_client(r, c, thorough):
         c.c("rqb 0", hx(body))
     c.c("mk 0 0 0x%x %s" % (typ, hx(uri)))
     c.c("step")
-    m.update(method=name.decode(), typ=typ, hasbody=hasbody, uri=hx(uri), body=hx(body), hdrs=[[hx(a), hx(b), f] for a, b, f in hs])
+    m.update(method=name.decode(), typ=typ, hasbody=hasbody, uri=hx(uri), body=hx(body), hdrs=[[hx(a), hx(b), f] for a, b, f in hs], reuse=int(reuse))
     return c
 
 
